@@ -524,7 +524,8 @@ int main(int argc, char ** argv)
       // DESIGN C13: the allowance is decisive (16 eps S < res/4, an off-by-one cell cannot hide in it)
       // on at least 90 % of the axes this shard generated -- counted on the float axes alone, the
       // double axes are always decisive; otherwise the counter stays 0 and vcheck reports the run
-      // as inconclusive.
+      // as inconclusive.  (Shards are case index mod nshards and the scalar type is case index mod 4,
+      // so with 4 or 16 shards half of them see no float axis and never add to the counter.)
       uint64_t t = c.counters["axes_total"], d = c.counters["axes_decisive"];
       uint64_t ft = c.counters["float_axes_total"], fd = c.counters["float_axes_decisive"];
       if (t > 0 && 10 * d >= 9 * t && ft > 0 && 10 * fd >= 9 * ft) {c.count("shards_with_ge_90pct_decisive_axes");}
